@@ -12,7 +12,8 @@ RULE = ("valid Tx/Rx messages drawn constructively over the full field ranges (b
         "parse(gen(m)) equals m field by field (+ v0 legacy/non-legacy metamorphic equality). Every valid "
         "message is non-trivial; distinct = distinct case (message+legacy+buffer type). Enumerations: every "
         "soft-bit value at several positions, every (modulation,TSC set,TSC,NOPE) MTS combination, FN boundaries x TN. "
-        "Histories: message_sequences (several messages through re-used parser objects, refused messages in between) and object_life "
+        "accepted_candidates: the property quantifies over what the TOOLKIT accepts - C13's boundary lattice (singles + pairs over 13 baselines) "
+        "is offered to gen_msg() and whatever is accepted must round-trip, also beyond the protocol ranges. Histories: message_sequences (several messages through re-used parser objects, refused messages in between) and object_life "
         "(ONE message object changed in place between encodings - header fields, burst elements / slices, burst replaced, burst <-> NOPE - "
         "each encoding decoded by a fresh object must give the object's current content).")
 LEVEL = "exploration"
@@ -252,10 +253,97 @@ def life_oracle(case):
             {"cls": m["cls"], "ver": m["ver"], "ops": [o[0] for o in case["ops"]]})
 
 
+def accepted_candidates(ctx, rec):
+    """The property quantifies over what THE TOOLKIT accepts as valid.  Candidates on and around every range boundary (the
+    single-field and pair deviations of C13's lattice over 13 baselines) are offered to gen_msg(); whatever it accepts must
+    survive its own decoder field by field - also a message the protocol ranges would not allow."""
+    from checks import c13
+    import itertools
+    fails, seen = [], set()
+    n_acc = n_rej = 0
+
+    def carried(f):
+        e = {"ver": f["ver"], "fn": f["fn"], "tn": f["tn"]}
+        if f["cls"] == "tx":
+            e.update(pwr=f["pwr"], bits=f["bits"])
+            return e
+        e.update(rssi=f["rssi"], toa256=f["toa256"], soft=f["soft"])
+        if f["ver"] >= 1:
+            e.update(nope=f["nope"], ci=f["ci"])
+            if not f["nope"]:
+                e.update(mod=f["mod"], tsc_set=f["tsc_set"], tsc=f["tsc"])
+        return e
+
+    def one(m):
+        nonlocal n_acc, n_rej
+        for legacy in (False, True):
+            msg = c13.build(m)
+            try:
+                enc = bytes(msg.gen_msg(legacy))
+            except ValueError:
+                n_rej += 1
+                continue
+            except Exception as e:
+                raise Violation("c01:accepted:encoder-raises-%s" % type(e).__name__, "%r for %r" % (e, m))
+            n_acc += 1
+            want = carried(tk.msg_fields(msg))
+            try:
+                got = decode_with_toolkit(m["cls"], enc, "bytearray")
+            except ValueError as e:
+                raise Violation("c01:accepted-message-own-encoding-rejected", "gen_msg(legacy=%s) accepted %r but parse_msg raised %r" % (legacy, m, e))
+            for k, v in want.items():
+                if got.get(k) != v:
+                    raise Violation("c01:accepted-message-field-differs:%s:%s" % (m["cls"], k),
+                                    "the toolkit accepted %r; field %s encoded %r decoded %r" % (m, k, _short(v), _short(got.get(k))))
+
+    def guarded(m):
+        try:
+            one(m)
+        except Violation as v:
+            if v.sig not in seen:
+                seen.add(v.sig)
+                fails.append(Failure("accepted_candidates", m, v.sig, v.msg))
+    for b in c13.baselines():
+        fields = c13.TX_FIELDS if b["cls"] == "tx" else c13.RX_FIELDS
+        for f in fields:
+            for val in c13.CAND[f]:
+                guarded(dict(b, **{f: val}))
+        pairs = list(itertools.combinations(fields, 2))
+        if ctx.tier == "quick":
+            pairs = [p for i, p in enumerate(pairs) if (i + ctx.seed) % 3 == 0]
+        for f1, f2 in pairs:
+            for v1 in c13.CAND[f1]:
+                for v2 in c13.CAND[f2]:
+                    guarded(dict(b, **{f1: v1, f2: v2}))
+    rec.bulk(n_acc + n_rej, n_acc, {"accepted-by-the-toolkit": n_acc, "refused": n_rej})
+    rec.exhaustive = ctx.tier != "quick"
+    rec.samples.append({"enumerated": "C13 lattice (singles + pairs) x legacy on/off; non-trivial = accepted by gen_msg()"})
+    return fails
+
+
+def accepted_replay(m):
+    from checks import c13
+    for legacy in (False, True):
+        msg = c13.build(m)
+        try:
+            enc = bytes(msg.gen_msg(legacy))
+        except ValueError:
+            continue
+        f = tk.msg_fields(msg)
+        got = decode_with_toolkit(m["cls"], enc, "bytearray")
+        for k in ("ver", "fn", "tn") + (("pwr", "bits") if m["cls"] == "tx" else ("rssi", "toa256", "soft", "mod", "tsc_set", "tsc", "ci", "nope")):
+            if f["cls"] == "rx" and (f["ver"] == 0 and k in ("mod", "tsc_set", "tsc", "ci", "nope") or f.get("nope") and k in ("mod", "tsc_set", "tsc")):
+                continue
+            if got.get(k) != f.get(k):
+                raise Violation("c01:accepted-message-field-differs:%s:%s" % (m["cls"], k), "%r vs %r" % (_short(f.get(k)), _short(got.get(k))))
+
+
 SUBS = [
+    Sub("accepted_candidates", fn=accepted_candidates),
     Sub("object_life", strategy=msglife.life_case, oracle=life_oracle, examples={"quick": 1000, "thorough": 40000}),
     Sub("roundtrip", strategy=case_st, oracle=roundtrip, examples={"quick": 4000, "thorough": 160000}),
     Sub("enumerations", fn=enumerations),
     Sub("message_sequences", strategy=seq_case, oracle=sequence_oracle, examples={"quick": 700, "thorough": 30000}),
 ]
-SUBS[2].replay = roundtrip
+SUBS[3].replay = roundtrip
+SUBS[0].replay = accepted_replay
